@@ -194,8 +194,40 @@ pub fn entry(depth: u32, inner: bool) -> BoxedStrategy<Entry> {
         (field(inner), prop::collection::vec(flt_member(), 1..=3))
             .prop_map(|(f, l)| Entry { key: KeySpec { modifier: KMod::Flt, field: f }, val: ValSpec::List(l) }),
     ];
+    // string members of one batch kind (no K3 shape): all case-sensitive needles, all i-needles, or
+    // all regexes of one case flag
+    let one_batch = (prop::collection::vec(needle(), 1..=5), prop::collection::vec(0u8..4, 5), 0u8..4).prop_map(
+        |(ns, kinds, flavour)| {
+            ns.iter()
+                .zip(kinds)
+                .map(|(n, k)| {
+                    let n = if n.is_empty() { "a".to_string() } else { n.clone() };
+                    let t = match flavour {
+                        2 => format!("?{}", REGEX_VOCAB[(n.len() * 7 + k as usize) % REGEX_VOCAB.len()].0),
+                        3 => format!("i?{}", REGEX_VOCAB[(n.len() * 5 + k as usize) % REGEX_VOCAB.len()].0),
+                        _ => {
+                            let base = match k {
+                                0 => n.clone(),
+                                1 => format!("{n}*"),
+                                2 => format!("*{n}"),
+                                _ => format!("*{n}*"),
+                            };
+                            if flavour == 1 {
+                                format!("i{base}")
+                            } else {
+                                base
+                            }
+                        }
+                    };
+                    ValSpec::Str(t)
+                })
+                .filter(|v| matches!(v, ValSpec::Str(t) if matches!(reference::parse_pattern(t, false), Ok(p) if p.is_string_kind())))
+                .collect::<Vec<_>>()
+        },
+    ).prop_filter("non-empty", |v| !v.is_empty());
     let homogeneous = prop_oneof![
-        6 => prop::collection::vec(string_member(), 1..=5),
+        4 => one_batch,
+        3 => prop::collection::vec(string_member(), 1..=5),
         2 => prop::collection::vec(number_member(), 1..=4),
         1 => prop::collection::vec(any::<bool>().prop_map(ValSpec::Bool), 1..=2),
         1 => if depth > 0 {
